@@ -1,18 +1,18 @@
 SPECIFICATION Spec
 CONSTANTS
   Downloads = {1, 2, 3}
-  Comps = {"n1", "n2", "n3"}
-  MinLen = 1
+  Comps = {"n1"}
+  MinLen = 2
   MaxLen = 2
-  Chains = {"DN", "DKN", "KDN"}
-  RootPre = {{}, {0}, {0, 1}}
-  SubPre = {{9}, {0}}
+  Chains = {"DN", "DKN"}
+  RootPre = {{}, {0}}
+  SubPre = {{9}}
   EqualNames = TRUE
   SanitiseDots = TRUE
   Reserve = TRUE
-  AllowAbort = FALSE
+  AllowAbort = TRUE
   ForeignRelease = FALSE
-  OrderedArrival = FALSE
+  OrderedArrival = TRUE
 INVARIANT TypeOK
 INVARIANT Inside
 INVARIANT RegularName
